@@ -1,1 +1,350 @@
-(** Model/Cache.v — placeholder, to be written. *)
+(** Model/Cache.v — pypyr/cache/cache.py [Cache.get] / [Cache.clear] as a transition
+    system over an arbitrary scheduler, and the pipeline-cache key of
+    [pypyr.cache.loadercache.Loader.get_pipeline].
+
+    The instruction list is written by hand from the source; it is tied to /repo only by
+    the correspondence run (harness/props/C13.py), which replays model schedules step for
+    step on real threads and compares the event logs.
+
+    {v
+    def get(self, key, creator):                 pc
+        if config.no_cache:                      P0          (IfNoCache)
+            return creator()                     PNcEnter ; PNcExit ; PReturn | PRaise
+        with self._lock:                         PAcquire    (blocked = no-op)
+            if key in self._cache:               PIfContains
+                obj = self._cache[key]           PLoad
+            else:
+                obj = creator()                  PCreateEnter ; PCreateExit
+                self._cache[key] = obj           PStore
+                                                 PRelease  (normal exit of the with block)
+                                                 PReleaseExc (exit of the with block on an
+                                                              exception; then PRaise)
+        return obj                               PReturn
+
+    def clear(self):
+        with self._lock:                         P0          (Acquire; blocked = no-op)
+            self._cache.clear()                  PClearAll
+                                                 PCRelease ; PCReturn
+    v}
+    Assumed, not modelled: [threading.Lock] is a mutex (an acquire succeeds only when
+    nobody holds it), each dict operation is atomic. *)
+From PV Require Export PyStr.
+From Coq Require Import Lia.
+Open Scope string_scope.
+
+Definition key := string.
+Definition tid := nat.
+Definition obj := Z.
+
+(** * The pipeline cache key:  f'{parent}+{name}' if parent else name *)
+
+(** [parent] is [None] or [Some (str parent)]; Python truthiness of a str parent is
+    non-emptiness (a [Path] parent is always truthy and never renders as ""). *)
+Definition truthy (p : option string) : bool :=
+  match p with Some (String _ _) => true | _ => false end.
+
+Definition pipeline_key (parent : option string) (name : string) : key :=
+  match parent with
+  | Some (String c r) => String c r ++ "+" ++ name
+  | _ => name
+  end.
+
+(** a request: (parent, name).  Every other cache (steps, parsers, loaders, back-offs,
+    namespaces, files) uses the name itself as key = a request with parent [None]. *)
+Definition req := (option string * string)%type.
+Definition key_of (r : req) : key := pipeline_key (fst r) (snd r).
+
+(** [None] and [""] are the same "no parent" to every consumer ([if parent:]). *)
+Definition norm_req (r : req) : req := (if truthy (fst r) then fst r else None, snd r).
+
+Definition plus : ascii := "+"%char.
+Definition name_plus_free (r : req) : bool := negb (contains_char plus (snd r)).
+Definition parent_plus_free (r : req) : bool :=
+  match fst r with
+  | Some (String c s) => negb (contains_char plus (String c s))
+  | _ => false
+  end.
+
+(** * Programs, threads, shared state *)
+
+Inductive op :=
+| OGet (r : req) (ok : bool)   (* look-up of r; [ok]: what its creator does if invoked *)
+| OClear.
+
+Inductive pc :=
+| P0 | PAcquire | PIfContains | PLoad | PCreateEnter | PCreateExit | PStore
+| PRelease | PReturn | PReleaseExc | PRaise | PNcEnter | PNcExit
+| PClearAll | PCRelease | PCReturn.
+
+Record thread := mkTh { prog : list op; tpc : pc; reg : option obj }.
+
+Inductive event :=
+| EAcq (t : tid)
+| ERel (t : tid)
+| ECall (t : tid) (r : req)              (* creator entered *)
+| ECreated (t : tid) (r : req) (o : obj) (* creator returned o *)
+| EFailed (t : tid) (r : req)            (* creator raised *)
+| ELoad (t : tid) (r : req) (o : obj)    (* obj = self._cache[key] *)
+| EStore (t : tid) (r : req) (o : obj)   (* self._cache[key] = obj *)
+| EClear (t : tid)                       (* self._cache.clear() *)
+| ERet (t : tid) (r : req) (o : obj)     (* get returned o to its caller *)
+| ERaise (t : tid) (r : req)             (* get propagated the creator's exception *)
+| ECleared (t : tid).                    (* clear returned *)
+
+Record state := mkSt {
+  threads : tid -> thread;
+  store : key -> option obj;
+  lock : option tid;
+  next : obj;               (* fresh-object counter *)
+  nocache : bool;           (* config.no_cache *)
+  log : list event          (* newest first *)
+}.
+
+Definition upd (f : tid -> thread) (t : tid) (th : thread) : tid -> thread :=
+  fun t' => if Nat.eqb t' t then th else f t'.
+Definition supd (s : key -> option obj) (k : key) (o : obj) : key -> option obj :=
+  fun k' => if String.eqb k' k then Some o else s k'.
+Definition sempty : key -> option obj := fun _ => None.
+
+Definition goto (st : state) (t : tid) (th : thread) (p : pc) : tid -> thread :=
+  upd (threads st) t (mkTh (prog th) p (reg th)).
+
+(** one instruction of thread [t] *)
+Definition step (t : tid) (st : state) : state :=
+  let th := threads st t in
+  match prog th with
+  | [] => st
+  | OGet r ok :: rest =>
+      let k := key_of r in
+      match tpc th with
+      | P0 =>
+          mkSt (goto st t th (if nocache st then PNcEnter else PAcquire))
+               (store st) (lock st) (next st) (nocache st) (log st)
+      | PAcquire =>
+          match lock st with
+          | None => mkSt (goto st t th PIfContains) (store st) (Some t) (next st)
+                         (nocache st) (EAcq t :: log st)
+          | Some _ => st
+          end
+      | PIfContains =>
+          mkSt (goto st t th (match store st k with Some _ => PLoad | None => PCreateEnter end))
+               (store st) (lock st) (next st) (nocache st) (log st)
+      | PLoad =>
+          match store st k with
+          | Some o => mkSt (upd (threads st) t (mkTh (prog th) PRelease (Some o)))
+                           (store st) (lock st) (next st) (nocache st)
+                           (ELoad t r o :: log st)
+          | None => (* KeyError inside the with block *)
+                    mkSt (goto st t th PReleaseExc)
+                         (store st) (lock st) (next st) (nocache st) (log st)
+          end
+      | PCreateEnter =>
+          mkSt (goto st t th PCreateExit) (store st) (lock st) (next st) (nocache st)
+               (ECall t r :: log st)
+      | PCreateExit =>
+          if ok then
+            mkSt (upd (threads st) t (mkTh (prog th) PStore (Some (next st))))
+                 (store st) (lock st) (next st + 1)%Z (nocache st)
+                 (ECreated t r (next st) :: log st)
+          else
+            mkSt (goto st t th PReleaseExc) (store st) (lock st) (next st) (nocache st)
+                 (EFailed t r :: log st)
+      | PStore =>
+          match reg th with
+          | Some o => mkSt (goto st t th PRelease) (supd (store st) k o) (lock st) (next st)
+                           (nocache st) (EStore t r o :: log st)
+          | None => st
+          end
+      | PRelease =>
+          mkSt (goto st t th PReturn) (store st) None (next st) (nocache st)
+               (ERel t :: log st)
+      | PReturn =>
+          match reg th with
+          | Some o => mkSt (upd (threads st) t (mkTh rest P0 None))
+                           (store st) (lock st) (next st) (nocache st)
+                           (ERet t r o :: log st)
+          | None => st
+          end
+      | PReleaseExc =>
+          mkSt (goto st t th PRaise) (store st) None (next st) (nocache st)
+               (ERel t :: log st)
+      | PRaise =>
+          mkSt (upd (threads st) t (mkTh rest P0 None))
+               (store st) (lock st) (next st) (nocache st) (ERaise t r :: log st)
+      | PNcEnter =>
+          mkSt (goto st t th PNcExit) (store st) (lock st) (next st) (nocache st)
+               (ECall t r :: log st)
+      | PNcExit =>
+          if ok then
+            mkSt (upd (threads st) t (mkTh (prog th) PReturn (Some (next st))))
+                 (store st) (lock st) (next st + 1)%Z (nocache st)
+                 (ECreated t r (next st) :: log st)
+          else
+            mkSt (goto st t th PRaise) (store st) (lock st) (next st) (nocache st)
+                 (EFailed t r :: log st)
+      | _ => st
+      end
+  | OClear :: rest =>
+      match tpc th with
+      | P0 =>
+          match lock st with
+          | None => mkSt (goto st t th PClearAll) (store st) (Some t) (next st)
+                         (nocache st) (EAcq t :: log st)
+          | Some _ => st
+          end
+      | PClearAll =>
+          mkSt (goto st t th PCRelease) sempty (lock st) (next st) (nocache st)
+               (EClear t :: log st)
+      | PCRelease =>
+          mkSt (goto st t th PCReturn) (store st) None (next st) (nocache st)
+               (ERel t :: log st)
+      | PCReturn =>
+          mkSt (upd (threads st) t (mkTh rest P0 None))
+               (store st) (lock st) (next st) (nocache st) (ECleared t :: log st)
+      | _ => st
+      end
+  end.
+
+(** the scheduler: ANY list of thread ids *)
+Fixpoint run (sched : list tid) (st : state) : state :=
+  match sched with
+  | [] => st
+  | t :: rest => run rest (step t st)
+  end.
+
+Definition init (nc : bool) (progs : list (list op)) : state :=
+  mkSt (fun t => mkTh (nth t progs []) P0 None) sempty None 0%Z nc [].
+
+(** * Log queries used by the theorems *)
+
+Definition is_clear (e : event) : bool := match e with EClear _ => true | _ => false end.
+
+(** events since the last [self._cache.clear()] (the current epoch) *)
+Fixpoint since_clear (l : list event) : list event :=
+  match l with
+  | [] => []
+  | e :: r => if is_clear e then [] else e :: since_clear r
+  end.
+
+(** objects successfully created for key [k] *)
+Fixpoint created_for (k : key) (l : list event) : list obj :=
+  match l with
+  | [] => []
+  | ECreated _ r o :: rest =>
+      if String.eqb (key_of r) k then o :: created_for k rest else created_for k rest
+  | _ :: rest => created_for k rest
+  end.
+
+(** objects handed out under the lock for key [k] (loaded or just stored) *)
+Fixpoint got_for (k : key) (l : list event) : list obj :=
+  match l with
+  | [] => []
+  | ELoad _ r o :: rest | EStore _ r o :: rest =>
+      if String.eqb (key_of r) k then o :: got_for k rest else got_for k rest
+  | _ :: rest => got_for k rest
+  end.
+
+Fixpoint all_created (l : list event) : list obj :=
+  match l with
+  | [] => []
+  | ECreated _ _ o :: rest => o :: all_created rest
+  | _ :: rest => all_created rest
+  end.
+
+Definition req_eqb (a b : req) : bool :=
+  andb (match fst a, fst b with
+        | None, None => true
+        | Some x, Some y => String.eqb x y
+        | _, _ => false
+        end) (String.eqb (snd a) (snd b)).
+
+Fixpoint calls_by (t : tid) (l : list event) : nat :=
+  match l with
+  | [] => 0
+  | ECall t' _ :: rest => (if Nat.eqb t' t then 1 else 0) + calls_by t rest
+  | _ :: rest => calls_by t rest
+  end.
+
+(** completed look-ups (returned or raised) of thread t *)
+Fixpoint finished_by (t : tid) (l : list event) : nat :=
+  match l with
+  | [] => 0
+  | ERet t' _ _ :: rest | ERaise t' _ :: rest =>
+      (if Nat.eqb t' t then 1 else 0) + finished_by t rest
+  | _ :: rest => finished_by t rest
+  end.
+
+(** a thread holds the lock exactly at these program points *)
+Definition holds (th : thread) : bool :=
+  match prog th with
+  | [] => false
+  | OGet _ _ :: _ =>
+      match tpc th with
+      | PIfContains | PLoad | PCreateEnter | PCreateExit | PStore | PRelease
+      | PReleaseExc => true
+      | _ => false
+      end
+  | OClear :: _ =>
+      match tpc th with PClearAll | PCRelease => true | _ => false end
+  end.
+
+(** thread is inside the (locked) creator call for key k *)
+Definition creating (th : thread) (k : key) : bool :=
+  match prog th with
+  | OGet r _ :: _ =>
+      match tpc th with
+      | PCreateEnter | PCreateExit => String.eqb (key_of r) k
+      | _ => false
+      end
+  | _ => false
+  end.
+
+Definition op_ok (okf : key -> bool) (o : op) : bool :=
+  match o with OGet r ok => Bool.eqb ok (okf (key_of r)) | OClear => true end.
+
+(** * Correspondence: event equality and the check terms the harness evaluates *)
+
+Definition opt_str_eqb (a b : option string) : bool :=
+  match a, b with
+  | None, None => true
+  | Some x, Some y => String.eqb x y
+  | _, _ => false
+  end.
+
+Definition event_eqb (a b : event) : bool :=
+  match a, b with
+  | EAcq t, EAcq u | ERel t, ERel u | EClear t, EClear u | ECleared t, ECleared u => Nat.eqb t u
+  | ECall t r, ECall u s | EFailed t r, EFailed u s | ERaise t r, ERaise u s =>
+      andb (Nat.eqb t u) (req_eqb r s)
+  | ECreated t r o, ECreated u s p | ELoad t r o, ELoad u s p | EStore t r o, EStore u s p
+  | ERet t r o, ERet u s p =>
+      andb (Nat.eqb t u) (andb (req_eqb r s) (Z.eqb o p))
+  | _, _ => false
+  end.
+
+Fixpoint events_eqb (a b : list event) : bool :=
+  match a, b with
+  | [], [] => true
+  | x :: a', y :: b' => andb (event_eqb x y) (events_eqb a' b')
+  | _, _ => false
+  end.
+
+(** what is visible without instrumenting lock and dict (sequential histories on the
+    real Cache subclasses): creator calls and results *)
+Definition op_level (e : event) : bool :=
+  match e with
+  | ECall _ _ | ECreated _ _ _ | EFailed _ _ | ERet _ _ _ | ERaise _ _ | ECleared _ => true
+  | _ => false
+  end.
+
+Definition model_log (nc : bool) (progs : list (list op)) (sched : list tid) : list event :=
+  rev (log (run sched (init nc progs))).
+
+(** 0 = the implementation's event log (oldest first) is the model's *)
+Definition check_full (nc : bool) (progs : list (list op)) (sched : list tid)
+           (observed : list event) : nat :=
+  if events_eqb (model_log nc progs sched) observed then 0 else 1.
+
+Definition check_ops (nc : bool) (progs : list (list op)) (sched : list tid)
+           (observed : list event) : nat :=
+  if events_eqb (filter op_level (model_log nc progs sched)) observed then 0 else 1.
